@@ -24,6 +24,11 @@ theorem passive : ∀ s ∈ Gen.undefinedSyms, s.2 ∈ allowed := by decide
 /-- no inline assembly (hence no direct system call) in the library's sources and headers -/
 theorem no_asm : Gen.asmUses = [] := by decide
 
+/-- no instruction that stops or signals the process by itself (`ud2` = `__builtin_trap`, `int3`,
+    `hlt`, raw `syscall`/`int`) in any compiled object of the library (gcc -O2, objdump): the only
+    ways out of a library function are `ret` and the calls of the symbol surface above -/
+theorem no_trap_instructions : Gen.trapInsns = [] := by decide
+
 /-- the library itself makes no call through a function pointer (the qsort comparators are
     called by qsort, and are functions of this library) -/
 theorem no_indirect_calls : Gen.indirectCalls = [] := by decide
